@@ -33,16 +33,21 @@ def run_case(sc):
     for perm in perms(len(names), rng):
         scs = [Scaffold(names[b - 1], rank=sc["ranks"][b - 1]) for b in perm]
         ident = {id(s): b for s, b in zip(scs, perm)}
-        r = {"perm": perm, "exc": "", "outN": [], "outR": []}
+        r = {"perm": perm, "exc": "", "outN": [], "outR": [], "outN2": []}
 
         def call(_):
             a = Assembly("t", scaffolds=list(scs))
             on = [ident[id(s)] for s in a.scaffolds_sorted_by_name()]
             a.smart_sort_scaffolds()
-            return on, [ident[id(s)] for s in a.scaffolds]
+            orr = [ident[id(s)] for s in a.scaffolds]
+            # history: the same scaffold objects are renamed in place (names rotated by one) and sorted again
+            for s, b in zip(scs, perm):
+                s.name = names[b % len(names)]
+            on2 = ["".join(x) for x in [list(s.name) for s in a.scaffolds_sorted_by_name()]]
+            return on, orr, [names.index(x) + 1 for x in on2]
         out = C.guarded(call, None, 5.0)
         if out[0] == "ok":
-            r["outN"], r["outR"] = out[1]
+            r["outN"], r["outR"], r["outN2"] = out[1]
         else:
             r["exc"] = out[1] if out[0] == "exc" else "HANG"
         runs.append(r)
